@@ -51,6 +51,8 @@ func c10Transports() []c10Transport {
 	return []c10Transport{
 		{name: "direct", class: "direct"},
 		{"oaep-mgf1p-sha1", "oaep-mgf1p-sha1", oaep(xmlenc.SHA1), xenc.KeyTransport{Alg: xenc.OAEPMGF1P, DigestURI: xmlenc.SHA1.Algorithm()}, 20},
+		// the DigestMethod child is optional and defaults to SHA-1: a reference ciphertext that leaves it out must decrypt all the same
+		{"oaep-mgf1p-digest-element-omitted", "oaep-mgf1p-sha1", oaep(xmlenc.SHA1), xenc.KeyTransport{Alg: xenc.OAEPMGF1P}, 20},
 		{"oaep-mgf1p-sha256", "oaep-mgf1p-nonsha1", oaep(xmlenc.SHA256), xenc.KeyTransport{Alg: xenc.OAEPMGF1P, DigestURI: xmlenc.SHA256.Algorithm()}, 32},
 		{"oaep-mgf1p-sha512", "oaep-mgf1p-nonsha1", oaep(xmlenc.SHA512), xenc.KeyTransport{Alg: xenc.OAEPMGF1P, DigestURI: xmlenc.SHA512.Algorithm()}, 64},
 		{"oaep-mgf1p-ripemd160", "oaep-mgf1p-nonsha1", oaep(xmlenc.RIPEMD160), xenc.KeyTransport{Alg: xenc.OAEPMGF1P, DigestURI: xmlenc.RIPEMD160.Algorithm()}, 20},
